@@ -24,7 +24,10 @@ CLAIMED = {
                      "block of its element type and exactly that capacity (so release/resize use the creation layout), no block is "
                      "released twice, no two columns share a block, every block has an owner, and releasing every column empties "
                      "the heap -- given the pointer/capacity write-back after each capacity-changing call, which is regenerated from "
-                     "the source per call site (coq/Gen/Facts.v fact_wb_*) and shown necessary by three refuting histories. PARTIAL, "
+                     "the source per call site (coq/Gen/Facts.v fact_wb_*) and shown necessary by three refuting histories; the identifier "
+                     "bit iterator that drives every column walk, with its four decisions regenerated from identifier/iter.rs, returns for "
+                     "every registry size and identifier exactly the bits the model reads and never leaves the identifier's allocation "
+                     "(C05_identifier_iterator). PARTIAL, "
                      "carried by the correspondence on the real code: an auditing global allocator checks after every operation that "
                      "blocks are released once, with the size/alignment they were created with, and that every block obtained during "
                      "a history is returned once all worlds are dropped (registries with zero-sized, over-aligned, heap-owning, "
@@ -43,9 +46,13 @@ CLAIMED = {
                      "index/storage invariant safe calls rely on unchecked (findings F11, repaired by f1ccfcd, and F8c, repaired by "
                      "342a817), safe calls are made through every identifier issued so far, the world is cleared, and every world is "
                      "dropped under the auditing allocator: no value dropped twice, no block released twice or with a wrong layout; for "
-                     "remove/clear/overwrite the set of doubly dropped values is compared with the model's prediction. PARTIAL: clone_from "
-                     "(ordering facts only), clone, serde, ==, Debug, shape changes and system bodies have no cell-level fault model; "
-                     "they are judged on the real code only.",
+                     "remove/clear/overwrite the set of doubly dropped values is compared with the model's prediction. Archetype::clone_from has a cell-level model "
+                     "over both callback kinds (the k-th Clone or Drop panics): no double drop for any k and any lengths, and a call "
+                     "that returns holds exactly the source's values; the growth-then-panic case is proved at the heap level; "
+                     "World::clone_from, World::remove and Entry::remove are modelled at the level of identifiers and rows: the world "
+                     "the caller gets back after the panic satisfies the index invariant (orderings read off the source, each shown "
+                     "necessary). PARTIAL: clone, serde, ==, Debug and system bodies have no fault model; they are judged on the real "
+                     "code only (every callback kind, every position, resources included).",
                 technique="Rocq proof/refutation over a cell-level fault model + exhaustive-position panic injection on the real library under a quarantining allocator",
                 ref="DESIGN.md §7 C17"),
     "C14": dict(engine="compile-family", note="CFAIL_NOTE",
@@ -96,8 +103,10 @@ CLAIMED = {
                      "over the identifier->component-vector map; the same for World::entry(..).query; size_hint brackets the "
                      "remaining count; a write through a mutable view changes that component of that entity only. A generated "
                      "family of 40 (R5) + 18 (R16) query instantiations runs inside the world histories (iteration, entry query, "
-                     "mutable query) with size_hint checked before every next(). PARTIAL: query-time Entries sub-views are exercised "
-                     "by the schedule harness only (no theorem about subset.rs).",
+                     "mutable query) with size_hint checked before every next(). Query-time Entries: the sub-view table is regenerated "
+                     "from subset.rs, no uninitialised slot is read and the result equals World::entry(e).query for the same views "
+                     "(coq/Model/SubsetM.v; the extracted model runs it for the nqry operations). Three registries: 5, 9 (LEN % 8 == 1) "
+                     "and 16 (LEN % 8 == 0) components.",
                 technique="Rocq proof that the table-driven filter + bit-walk column selection equals a comprehension over the map + generated query family run differentially",
                 ref="DESIGN.md §7 C03"),
     "C15": dict(engine="world-histories",
@@ -156,8 +165,10 @@ CLAIMED = {
                 text="Refinement proved for every operation from every Inv world: step w o does to the identifier->component-vector "
                      "map exactly what the reference map does (feq fixes the value at every identifier, so no other entity changes), "
                      "len = number of keys, component order in entity!/entities! irrelevant, clone_from/serde reproduce the map; "
-                     "reference-map oracle on the implementation after every op of generated histories. Known finding F5 (class K01) "
-                     "kept visible as C01_K01_refuted.",
+                     "reference-map oracle on the implementation after every op of generated histories. Finding F5 (a batch of component-less "
+                     "entities stored nothing) is repaired by /repo e582bfb: that the number of rows travels with the batch is read off "
+                     "the source (fact_batch_carries_row_count), C01_extend_rows holds without exception and the behaviour before the "
+                     "repair is kept as C01_F5_before_the_repair.",
                 technique="Rocq refinement proof (model step = reference-map step, all histories) + op-by-op differential execution",
                 ref="DESIGN.md §7 C01"),
     "C02": dict(engine="world-histories",
@@ -191,7 +202,11 @@ CLAIMED = {
     "C13": dict(engine="world-histories",
                 text="Inv (shapes, one table per component set, slot<->row bijection, free queue = inactive slots without "
                      "duplicates, len = rows, lookup targets exist) proved preserved by every operation, clone_from and "
-                     "deserialization, for all histories; check_inv on the implementation dump after every op.",
+                     "deserialization, for all histories; check_inv on the implementation dump after every op -- also after every "
+                     "operation interrupted by an injected panic (findings F13: len() stale after a panicking Drop in clear, repaired by "
+                     "/repo 3a72c59; F16: World::extend counted the batch before the fallible call, repaired; a probe program covers "
+                     "the caught panics no history can build). At the level of identifiers and rows alone (coq/Model/CloneFromW.v) the "
+                     "slot<->row invariant is proved preserved by World::remove for every world, whatever Drop panics.",
                 technique="Rocq proof of invariant preservation by induction over histories + model/implementation correspondence",
                 ref="DESIGN.md §7 C13"),
     "C16": dict(engine="world-histories",
